@@ -20,7 +20,8 @@ type ScriptTransport struct {
 	mu   sync.Mutex
 	cond *sync.Cond
 
-	open    bool
+	open        bool
+	readWaiting int // readers parked in Read waiting for bytes
 	gen     int // incremented by every successful Open
 	inbuf   []byte
 	inErr   error // delivered once inbuf is drained (sticky until next Open)
@@ -121,7 +122,9 @@ func (s *ScriptTransport) Read(p []byte) (int, error) {
 		if len(p) == 0 {
 			return 0, nil
 		}
+		s.readWaiting++
 		s.cond.Wait()
+		s.readWaiting--
 	}
 }
 
@@ -221,6 +224,21 @@ func (s *ScriptTransport) FeedError(err error) {
 	s.inErr = err
 	s.cond.Broadcast()
 	s.mu.Unlock()
+}
+
+// SetBlockWrite makes every later Write wait on ch (nil: no blocking).
+func (s *ScriptTransport) SetBlockWrite(ch chan struct{}) {
+	s.mu.Lock()
+	s.BlockWrite = ch
+	s.mu.Unlock()
+}
+
+// ReaderIdle reports that every fed byte has been read and a reader is parked
+// in Read waiting for more, together with the number of Reads so far.
+func (s *ScriptTransport) ReaderIdle() (idle bool, reads int) {
+	s.mu.Lock()
+	defer s.mu.Unlock()
+	return len(s.inbuf) == 0 && s.readWaiting > 0, s.Reads
 }
 
 // Pending returns the number of fed bytes not yet read.
